@@ -6,13 +6,13 @@ From YV Require Import Scanner.
 Import ListNotations.
 
 (* enum Precedence, in order *)
-Inductive prec :=
+Inductive precedence :=
 | PrecNone | PrecAssignment | PrecOr | PrecAnd | PrecEquality | PrecComparison
 | PrecBitwiseOr | PrecBitwiseXor | PrecBitwiseAnd | PrecBitShift | PrecTerm | PrecFactor
 | PrecRange | PrecUnary | PrecCall | PrecPrimary.
 
 (* `precedence as usize` *)
-Definition prec_index (p : prec) : nat :=
+Definition prec_index (p : precedence) : nat :=
   match p with
   | PrecNone => 0 | PrecAssignment => 1 | PrecOr => 2 | PrecAnd => 3 | PrecEquality => 4
   | PrecComparison => 5 | PrecBitwiseOr => 6 | PrecBitwiseXor => 7 | PrecBitwiseAnd => 8
@@ -21,7 +21,7 @@ Definition prec_index (p : prec) : nat :=
   end.
 
 (* `Precedence::from(p as usize + 1)`; the Rust code panics for Primary + 1 (never reached) *)
-Definition prec_succ (p : prec) : prec :=
+Definition prec_succ (p : precedence) : precedence :=
   match p with
   | PrecNone => PrecAssignment | PrecAssignment => PrecOr | PrecOr => PrecAnd
   | PrecAnd => PrecEquality | PrecEquality => PrecComparison | PrecComparison => PrecBitwiseOr
@@ -31,7 +31,7 @@ Definition prec_succ (p : prec) : prec :=
   | PrecCall => PrecPrimary | PrecPrimary => PrecPrimary
   end.
 
-Definition prec_leb (a b : prec) : bool := Nat.leb (prec_index a) (prec_index b).
+Definition prec_leb (a b : precedence) : bool := Nat.leb (prec_index a) (prec_index b).
 
 (* the functions that occur in the `prefix` column *)
 Inductive prefix_rule :=
@@ -41,7 +41,7 @@ Inductive prefix_rule :=
 (* the functions that occur in the `infix` column *)
 Inductive infix_rule := ICall | IIndex | IDot | IDotDot | IBinary | IAnd | IOr.
 
-Record rule := mkRule { r_prefix : option prefix_rule; r_infix : option infix_rule; r_prec : prec }.
+Record rule := mkRule { r_prefix : option prefix_rule; r_infix : option infix_rule; r_prec : precedence }.
 
 Definition rule_none : rule := mkRule None None PrecNone.
 
